@@ -909,6 +909,7 @@ pub fn exec(s: &J) -> J {
                     let x = regs[src[0]].clone();
                     let y = if src.len() > 1 { regs[src[1]].clone() } else { Vec::new() };
                     let before = buf.len();
+                    let mut text_out: Option<Vec<u8>> = None;
                     let out = guard(|| {
                         let mut b = std::mem::take(&mut buf);
                         // Ok(Some(())) appended; Ok(None) nothing; Err
@@ -938,13 +939,22 @@ pub fn exec(s: &J) -> J {
                                 "get_by_name" => Ok(jsonb::get_by_name(&x, &s_of(&a["n"]), a["ic"].as_i64().unwrap() != 0).map(|v| b.extend_from_slice(&v))),
                                 "get_by_keypath" => { let kp = kp_from_j(&a["kp"]); Ok(jsonb::get_by_keypath(&x, kp.iter()).map(|v| b.extend_from_slice(&v))) }
                                 "object_keys" => Ok(jsonb::object_keys(&x).map(|v| b.extend_from_slice(&v))),
+                                "to_string" | "to_pretty_string" => {
+                                    // the text goes into the register, not into the shared buffer
+                                    text_out = Some(if f == "to_string" { jsonb::to_string(&x) } else { jsonb::to_pretty_string(&x) }.into_bytes());
+                                    Ok(None)
+                                }
                                 "select" => {
+                                    // the convenience functions: they accept JSONB and JSON text alike
                                     let jp = JsonPath { paths: paths_from_j(&a["path"]) };
-                                    let mode = match a["mode"].as_str().unwrap() { "first" => Mode::First, "array" => Mode::Array, _ => Mode::Mixed };
-                                    let sel = Selector::new(jp, mode);
                                     let mut offs = Vec::new();
                                     let l0 = b.len();
-                                    sel.select(&x, &mut b, &mut offs).map(|()| if b.len() > l0 { Some(()) } else { None })
+                                    let r = match a["mode"].as_str().unwrap() {
+                                        "first" => jsonb::get_by_path_first(&x, jp, &mut b, &mut offs),
+                                        "array" => jsonb::get_by_path_array(&x, jp, &mut b, &mut offs),
+                                        _ => jsonb::get_by_path(&x, jp, &mut b, &mut offs),
+                                    };
+                                    r.map(|()| if b.len() > l0 { Some(()) } else { None })
                                 }
                                 other => panic!("unknown chain step {other}"),
                             }
@@ -957,15 +967,19 @@ pub fn exec(s: &J) -> J {
                         }
                     });
                     let mut out = out;
+                    if let Some(t) = text_out.take() {
+                        out = json!({"t":"text","v":bytes_to_j(&t)});
+                        regs[dst] = t;
+                    }
                     if out["t"] == "bytes" {
                         let appended = buf[before..].to_vec();
                         out["v"] = bytes_to_j(&appended);
                         regs[dst] = appended;
                     }
-                    out["buf"] = bytes_to_j(&buf);
+                    out["buflen"] = json!(buf.len());
                     outs.push(out);
                 }
-                json!({"t":"chain","start":start_j,"outs":outs})
+                json!({"t":"chain","start":start_j,"outs":outs,"buf":bytes_to_j(&buf)})
             });
             ev.insert("res".into(), res);
         }
